@@ -8,6 +8,15 @@ Theorem C15_close_iff : forall h p w, 1 <= p -> 1 <= w -> 0 <= h ->
    is_tally h p = true /\ exists k, 1 <= k /\ h - 2 * p < k * w <= h).
 Proof. exact closes_iff. Qed.
 
+(* the gate as coded (uint64, votePeriod*2 may wrap) is the gate of these theorems for every vote period
+   parameter validation accepts *)
+Theorem C15_gate_as_coded : forall h p w, 0 <= h -> valid_period p ->
+  window_closing_u h p w = window_closing h p w.
+Proof.
+  intros h p w Hh Hp. apply window_closing_u_spec; [assumption|].
+  unfold valid_period, max_vote_period, two63 in *. lia.
+Qed.
+
 (* (2) every window is closed at the first tally at or after its last block *)
 Theorem C15_every_window_closed : forall k p w, 1 <= p -> 1 <= w -> 1 <= k ->
   closes (first_tally_at_or_after (k * w) p) p w = true.
@@ -68,6 +77,7 @@ Example C15_nonvacuous :
 Proof. vm_compute. repeat split; reflexivity. Qed.
 
 Print Assumptions C15_close_iff.
+Print Assumptions C15_gate_as_coded.
 Print Assumptions C15_every_window_closed.
 Print Assumptions C15_first_tally.
 Print Assumptions C15_nobody_else.
